@@ -83,6 +83,7 @@ type c14Block struct {
 	src            c14PatSrc
 	subMin, subMax int
 	plan           func(pt *c14Pat) *c14Plan
+	subAlpha       string // subject alphabet ("" = c14SubAlpha)
 }
 
 func runC14(r *harness.Run) {
@@ -92,7 +93,7 @@ func runC14(r *harness.Run) {
 	c := &c14Ctx{r: r}
 	r.Assumptions = []string{
 		"reference = Go port of Lua 5.1.4 lstrlib.c (internal/refs/lstrlib), validated against a hand-transcribed conformance table (go test) and, at run time, against its own static well-formedness classifier",
-		"C locale character classes; pattern and subject bytes < 0x80, no embedded NUL",
+		"C locale character classes; pattern and subject bytes < 0x80 except in block QU (the two bytes of a UTF-8 sequence), no embedded NUL",
 		"not judged (only 'no crash'): %f, sets mixing classes and ranges ([%a-z], [a-%d]), back-reference to a position capture, more than 32 captures, replacement escapes other than %0-%9 and %%, find/match init > len+1 (5.1.4 clamps, 5.2+ fails: both accepted), string.match returning no value instead of nil",
 		"hangs are decided by a watchdog (30 s on a microsecond-sized case; growth families: timeout reproduced in isolation with a 20x larger limit)",
 	}
@@ -184,44 +185,47 @@ func runC14(r *harness.Run) {
 	var blocks []c14Block
 	if !r.Thorough() {
 		blocks = []c14Block{
-			{"Q1 well-formed, every API", c14CharPats(A, 0, 3), 0, 2, wfOnly(full)},
-			{"Q2 well-formed, every API (reduced gsub)", c14CharPats(A, 0, 3), 3, 3, wfOnly(lite)},
-			{"Q3 malformed, every API", c14CharPats(A, 0, 3), 0, 2, malOnly(malPlan)},
-			{"Q4 find/match at every init in [-len-1, len+2]", c14CharPats(A, 0, 2), 0, 3, any(inits)},
-			{"Q5 well-formed, every API (gsub: one string, one function)", c14CharPats(A, 4, 4), 0, 2, wfOnly(lite2)},
-			{"Q6 well-formed, pm.Find", c14CharPats(A, 4, 4), 3, 3, wfOnly(pmOnly)},
-			{"Q7 malformed, pm.Find + find/match + gmatch", c14CharPats(A, 4, 4), 0, 1, malOnly(noGsub)},
-			{"Q8 gsub with every replacement string of length <= 3 (patterns with captures, or of length <= 2)", c14CharPats(A, 0, 4), 0, 1, withCaps(c14Plan{gsubRepls: allRepls})},
-			{"Q9 token patterns, well-formed, every API (reduced gsub)", c14TokenPats(0, 3, 4), 0, 2, wfOnly(lite)},
-			{"Q10 token patterns, well-formed, pm.Find", c14TokenPats(0, 3, 4), 3, 3, wfOnly(pmOnly)},
-			{"Q11 token patterns, malformed, pm.Find", c14TokenPats(0, 3, 4), 0, 1, malOnly(pmOnly)},
-			{"Q13 malformed: back-reference to a capture that is still open, every API", c14TokenPats(4, 4, 4), 0, 2, brefOpen(malPlan)},
-			{"Q14 sets: well-formed, pm.Find + find/match + gmatch", c14CharPats(S, 5, 5), 0, 2, wfOnly(noGsub)},
-			{"Q12 well-formed with a back-reference to a substring capture, every API (reduced gsub)", c14CharPats(R, 5, 6), 0, 3, withBackref(lite)},
+			{"Q1 well-formed, every API", c14CharPats(A, 0, 3), 0, 2, wfOnly(full), ""},
+			// bytes, not code points: subjects and patterns over the two bytes of a well-formed UTF-8
+			// sequence (in and out of order) and an ASCII letter
+			{"QU bytes of a multi-byte sequence in subject and pattern, every API", c14CharPats("\xc3\xa9a.*", 0, 2), 0, 4, wfOnly(full), "\xc3\xa9a"},
+			{"Q2 well-formed, every API (reduced gsub)", c14CharPats(A, 0, 3), 3, 3, wfOnly(lite), ""},
+			{"Q3 malformed, every API", c14CharPats(A, 0, 3), 0, 2, malOnly(malPlan), ""},
+			{"Q4 find/match at every init in [-len-1, len+2]", c14CharPats(A, 0, 2), 0, 3, any(inits), ""},
+			{"Q5 well-formed, every API (gsub: one string, one function)", c14CharPats(A, 4, 4), 0, 2, wfOnly(lite2), ""},
+			{"Q6 well-formed, pm.Find", c14CharPats(A, 4, 4), 3, 3, wfOnly(pmOnly), ""},
+			{"Q7 malformed, pm.Find + find/match + gmatch", c14CharPats(A, 4, 4), 0, 1, malOnly(noGsub), ""},
+			{"Q8 gsub with every replacement string of length <= 3 (patterns with captures, or of length <= 2)", c14CharPats(A, 0, 4), 0, 1, withCaps(c14Plan{gsubRepls: allRepls}), ""},
+			{"Q9 token patterns, well-formed, every API (reduced gsub)", c14TokenPats(0, 3, 4), 0, 2, wfOnly(lite), ""},
+			{"Q10 token patterns, well-formed, pm.Find", c14TokenPats(0, 3, 4), 3, 3, wfOnly(pmOnly), ""},
+			{"Q11 token patterns, malformed, pm.Find", c14TokenPats(0, 3, 4), 0, 1, malOnly(pmOnly), ""},
+			{"Q13 malformed: back-reference to a capture that is still open, every API", c14TokenPats(4, 4, 4), 0, 2, brefOpen(malPlan), ""},
+			{"Q14 sets: well-formed, pm.Find + find/match + gmatch", c14CharPats(S, 5, 5), 0, 2, wfOnly(noGsub), ""},
+			{"Q12 well-formed with a back-reference to a substring capture, every API (reduced gsub)", c14CharPats(R, 5, 6), 0, 3, withBackref(lite), ""},
 		}
 	} else {
 		B := "ab.%*-()1" // 9-symbol sub-alphabet without sets (DESIGN §4 C14)
 		blocks = []c14Block{
-			{"T1 well-formed, every API", c14CharPats(A, 0, 3), 0, 3, wfOnly(full)},
-			{"T2 well-formed, every API (reduced gsub)", c14CharPats(A, 4, 4), 0, 3, wfOnly(mid)},
-			{"T3 malformed, every API", c14CharPats(A, 0, 4), 0, 2, malOnly(malPlan)},
-			{"T4 find/match at every init in [-len-1, len+2], well-formed", c14CharPats(A, 0, 3), 0, 3, wfOnly(inits)},
-			{"T5 find/match at every init in [-len-1, len+2], malformed", c14CharPats(A, 0, 2), 0, 3, malOnly(inits)},
-			{"T6 gsub with every replacement string of length <= 3 (patterns with captures, or of length <= 2)", c14CharPats(A, 0, 4), 0, 2, withCaps(c14Plan{gsubRepls: allRepls})},
-			{"T7 token patterns, well-formed, every API (reduced gsub)", c14TokenPats(0, 3, 4), 0, 4, wfOnly(lite)},
-			{"T8 well-formed, pm.Find", c14CharPats(A, 0, 4), 4, 4, wfOnly(pmOnly)},
-			{"T9 well-formed, pm.Find + gmatch", c14CharPats(A, 5, 5), 0, 2, wfOnly(pmGmatch)},
-			{"T10 well-formed with captures, find/match + gsub", c14CharPats(A, 5, 5), 0, 1, withCaps(luaOnly)},
-			{"T11 malformed, pm.Find", c14CharPats(A, 5, 5), 0, 1, malOnly(pmOnly)},
-			{"T12 gsub with every replacement string of length <= 2 (patterns with captures)", c14CharPats(A, 5, 5), 0, 1, withCaps(c14Plan{gsubRepls: shortRepls})},
-			{"T13 token patterns, well-formed, every API (reduced gsub)", c14TokenPats(4, 4, 5), 0, 2, wfOnly(lite)},
-			{"T14 token patterns, malformed, pm.Find", c14TokenPats(0, 4, 5), 0, 1, malOnly(pmOnly)},
-			{"T15 well-formed, pm.Find", c14CharPats(B, 6, 6), 0, 2, wfOnly(pmOnly)},
-			{"T18 malformed: back-reference to a capture that is still open, every API", c14TokenPats(4, 4, 4), 0, 2, brefOpen(malPlan)},
-			{"T20 sets: well-formed, pm.Find + find/match + gmatch", c14CharPats(S, 6, 6), 0, 2, wfOnly(noGsub)},
-			{"T16 well-formed with a back-reference to a substring capture, every API (reduced gsub)", c14CharPats(R, 5, 7), 0, 3, withBackref(lite)},
-			{"T17 well-formed with a back-reference to a substring capture, pm.Find", c14CharPats(R, 5, 6), 4, 4, withBackref(pmOnly)},
-			{"T19 well-formed, pm.Find", c14CharPats(A, 5, 5), 3, 3, wfOnly(pmOnly)},
+			{"T1 well-formed, every API", c14CharPats(A, 0, 3), 0, 3, wfOnly(full), ""},
+			{"T2 well-formed, every API (reduced gsub)", c14CharPats(A, 4, 4), 0, 3, wfOnly(mid), ""},
+			{"T3 malformed, every API", c14CharPats(A, 0, 4), 0, 2, malOnly(malPlan), ""},
+			{"T4 find/match at every init in [-len-1, len+2], well-formed", c14CharPats(A, 0, 3), 0, 3, wfOnly(inits), ""},
+			{"T5 find/match at every init in [-len-1, len+2], malformed", c14CharPats(A, 0, 2), 0, 3, malOnly(inits), ""},
+			{"T6 gsub with every replacement string of length <= 3 (patterns with captures, or of length <= 2)", c14CharPats(A, 0, 4), 0, 2, withCaps(c14Plan{gsubRepls: allRepls}), ""},
+			{"T7 token patterns, well-formed, every API (reduced gsub)", c14TokenPats(0, 3, 4), 0, 4, wfOnly(lite), ""},
+			{"T8 well-formed, pm.Find", c14CharPats(A, 0, 4), 4, 4, wfOnly(pmOnly), ""},
+			{"T9 well-formed, pm.Find + gmatch", c14CharPats(A, 5, 5), 0, 2, wfOnly(pmGmatch), ""},
+			{"T10 well-formed with captures, find/match + gsub", c14CharPats(A, 5, 5), 0, 1, withCaps(luaOnly), ""},
+			{"T11 malformed, pm.Find", c14CharPats(A, 5, 5), 0, 1, malOnly(pmOnly), ""},
+			{"T12 gsub with every replacement string of length <= 2 (patterns with captures)", c14CharPats(A, 5, 5), 0, 1, withCaps(c14Plan{gsubRepls: shortRepls}), ""},
+			{"T13 token patterns, well-formed, every API (reduced gsub)", c14TokenPats(4, 4, 5), 0, 2, wfOnly(lite), ""},
+			{"T14 token patterns, malformed, pm.Find", c14TokenPats(0, 4, 5), 0, 1, malOnly(pmOnly), ""},
+			{"T15 well-formed, pm.Find", c14CharPats(B, 6, 6), 0, 2, wfOnly(pmOnly), ""},
+			{"T18 malformed: back-reference to a capture that is still open, every API", c14TokenPats(4, 4, 4), 0, 2, brefOpen(malPlan), ""},
+			{"T20 sets: well-formed, pm.Find + find/match + gmatch", c14CharPats(S, 6, 6), 0, 2, wfOnly(noGsub), ""},
+			{"T16 well-formed with a back-reference to a substring capture, every API (reduced gsub)", c14CharPats(R, 5, 7), 0, 3, withBackref(lite), ""},
+			{"T17 well-formed with a back-reference to a substring capture, pm.Find", c14CharPats(R, 5, 6), 4, 4, withBackref(pmOnly), ""},
+			{"T19 well-formed, pm.Find", c14CharPats(A, 5, 5), 3, 3, wfOnly(pmOnly), ""},
 		}
 	}
 
@@ -234,9 +238,13 @@ func runC14(r *harness.Run) {
 			if sel := os.Getenv("VERIF_C14_BLOCKS"); sel != "" && !strings.Contains(","+sel+",", ","+strings.SplitN(b.name, " ", 2)[0]+",") {
 				continue
 			}
-			subjects := c14Strings(c14SubAlpha, b.subMax)
+			salpha := c14SubAlpha
+			if b.subAlpha != "" {
+				salpha = b.subAlpha
+			}
+			subjects := c14Strings(salpha, b.subMax)
 			if b.subMin > 0 {
-				subjects = subjects[c14CountUpTo(len(c14SubAlpha), b.subMin-1):]
+				subjects = subjects[c14CountUpTo(len(salpha), b.subMin-1):]
 			}
 			const chunk = 64
 			nsh := (b.src.n + chunk - 1) / chunk
